@@ -19,7 +19,8 @@ RULE = ("per tree shape (<= 3 levels) a base query of n cells with two "
         "identical vectors and one all-zero-free pure-leaf cell; all n! row "
         "permutations, all 2^n-1 row subsets, each row duplicated under a "
         "new id, all (chunk size 1..n+1) x (workers 1..3), raw and "
-        "normalised input, Manager-list seam; results joined on cell id with "
+        "normalised input (and normalised input in which one cell is 10^5 "
+        "times weaker than its companions: every 2nd subset / chunking), Manager-list seam; results joined on cell id with "
         "the base run: exact for assignments / probabilities / runner-up "
         "names, 1e-9 for correlations; cells whose choice is decided by less "
         "than 1e-7 are skipped.  distinct_nontrivial = distinct (shape, "
@@ -151,7 +152,14 @@ def evaluate(case, scratch):
     shape_s = domains.shape_str(scenario._as_shape(case['shape']))
     n_runs = 0
     sample = None
-    for norm in ('raw', 'log2CPM'):
+    for variant in ('raw', 'log2CPM', 'log2CPM-weak'):
+        norm = variant.split('-')[0]
+        if variant == 'log2CPM-weak':
+            # the last cell becomes a weakly expressed one: the same
+            # normalised profile 10^5 times smaller than its companions'
+            b.log2cpm = np.array(b.log2cpm, dtype=float)
+            b.log2cpm[n - 1, :] *= 1.0e-5
+            b._query_cache.clear()
         matrix = b.raw if norm == 'raw' else b.log2cpm
         cfg0 = dict(base_cfg, normalization=norm)
         base = scenario.run_mapping(b, cfg0, scratch.new_dir('base'))
@@ -175,8 +183,10 @@ def evaluate(case, scratch):
                            f'{b.cell_ids[1]} have equal vectors but '
                            f'{d[:3]}'})
         pert = list(perturbations(n, case['tier']))
-        if norm == 'log2CPM':
+        if variant == 'log2CPM':
             pert = [p for p in pert if p[0] in ('perm', 'subset', 'dup')][::3]
+        elif variant == 'log2CPM-weak':
+            pert = [p for p in pert if p[0] in ('subset', 'chunk')][::2]
         for pi, (label, rows, new_ids, cfg) in enumerate(pert):
             ids = []
             rename = {}
@@ -221,7 +231,7 @@ def evaluate(case, scratch):
                 r = scenario.run_mapping(b, c, run_dir, query_path=qpath)
                 cmp_levels = levels
             n_runs += 1
-            desc = (f'{shape_s} scheme={case["scheme"]} {norm} {label} '
+            desc = (f'{shape_s} scheme={case["scheme"]} {variant} {label} '
                     f'rows={rows} new_ids={new_ids} cfg={cfg}')
             if not r.ok or not r.blob or 'results' not in r.blob:
                 violations.append({'key': 'perturbed-run-failed',
@@ -242,7 +252,7 @@ def evaluate(case, scratch):
                 violations.append({'key': f'depends-on-other-cells:{label}',
                                    'msg': f'{desc}: {dmsg}'})
             if len(set(ids) - frag) > 0:
-                keys.append(f'{shape_s}|{norm}|{label}|{rows}|'
+                keys.append(f'{shape_s}|{variant}|{label}|{rows}|'
                             f'{sorted(new_ids.items())}|{sorted(cfg.items())}')
             outcomes.add(mapcheck.result_signature(res))
             if sample is None and label == 'perm':
